@@ -43,6 +43,7 @@ import (
 	"net"
 	"net/http"
 	"net/url"
+	"runtime"
 	"strconv"
 	"strings"
 	"sync"
@@ -56,6 +57,11 @@ import (
 )
 
 type c12AltFailKey struct{}
+
+// c12AltReqKey marks the context of the lane's requests with their number: a QUIC dial is
+// attributed to a request by the context it is made under (the dial started by a background
+// AddConn runs under context.Background and may reach the seam during a LATER request).
+type c12AltReqKey struct{}
 
 func TestVerif_C12_altsm(t *testing.T) {
 	s := verifh.New(t, "C12", "c12altsm",
@@ -93,16 +99,26 @@ func TestVerif_C12_altsm(t *testing.T) {
 		c := C().EnableInsecureSkipVerify().EnableHTTP3()
 		tr := c.GetTransport()
 		var seamMu sync.Mutex
-		var seamPorts []string // ports the Dial seam was asked for during the current request
+		var seamPorts []string // ports the Dial seam was asked for ON BEHALF OF the current request
+		curReq, bgIn, bgOut := 0, 0, 0
 		installSeam := func() {
 			if tr.t3 == nil {
 				return
 			}
 			tr.t3.Dial = func(ctx context.Context, addr string, tlsCfg *tls.Config, qc *quic.Config) (quic.EarlyConnection, error) {
 				_, port, _ := net.SplitHostPort(addr)
+				id, _ := ctx.Value(c12AltReqKey{}).(int)
 				seamMu.Lock()
-				seamPorts = append(seamPorts, port)
+				if id != 0 && id == curReq {
+					seamPorts = append(seamPorts, port)
+				}
+				if id == 0 {
+					bgIn++
+				}
 				seamMu.Unlock()
+				if id == 0 {
+					defer func() { seamMu.Lock(); bgOut++; seamMu.Unlock() }()
+				}
 				if ctx.Value(c12AltFailKey{}) != nil {
 					return nil, errors.New("c12: exchange made to fail")
 				}
@@ -356,10 +372,24 @@ func TestVerif_C12_altsm(t *testing.T) {
 					}
 					ctx = context.WithValue(ctx, c12AltFailKey{}, true)
 				}
-				rq, _ := http.NewRequestWithContext(ctx, "GET", u.String(), nil)
+				// a background dial still inside the seam finishes first: the request then meets a
+				// settled HTTP/3 round tripper (cached connection, or a failed dial it repeats itself)
+				for w := 0; w < 2000; w++ {
+					runtime.Gosched()
+					seamMu.Lock()
+					busy := bgIn != bgOut
+					seamMu.Unlock()
+					if !busy {
+						break
+					}
+					time.Sleep(time.Millisecond)
+				}
 				seamMu.Lock()
+				curReq++
+				ctx = context.WithValue(ctx, c12AltReqKey{}, curReq)
 				seamPorts = nil
 				seamMu.Unlock()
+				rq, _ := http.NewRequestWithContext(ctx, "GET", u.String(), nil)
 				var resp *http.Response
 				var rerr error
 				if txt, p := verifh.Safely(func() { resp, rerr = tr.RoundTrip(rq) }); p {
